@@ -16,6 +16,7 @@ import (
 	"sort"
 	"strings"
 	"sync"
+	"sync/atomic"
 	"time"
 
 	"github.com/movio/bramble"
@@ -84,9 +85,30 @@ func (w *simWorld) reset() {
 	w.mu.Unlock()
 }
 
+// openBodies counts the response bodies handed to the code under test and not closed yet (C13: nothing a request started
+// may remain after its response is written).
+var openBodies int64
+
+type trackedBody struct {
+	io.Reader
+	closed int32
+}
+
+func (b *trackedBody) Close() error {
+	if atomic.CompareAndSwapInt32(&b.closed, 0, 1) {
+		atomic.AddInt64(&openBodies, -1)
+	}
+	return nil
+}
+
+func newTrackedBody(body string) io.ReadCloser {
+	atomic.AddInt64(&openBodies, 1)
+	return &trackedBody{Reader: strings.NewReader(body)}
+}
+
 func jsonResp(req *http.Request, status int, body string) *http.Response {
 	return &http.Response{StatusCode: status, Status: fmt.Sprintf("%d %s", status, http.StatusText(status)),
-		Header: http.Header{"Content-Type": []string{"application/json"}}, Body: io.NopCloser(strings.NewReader(body)),
+		Header: http.Header{"Content-Type": []string{"application/json"}}, Body: newTrackedBody(body),
 		Request: req, ProtoMajor: 1, ProtoMinor: 1, ContentLength: int64(len(body))}
 }
 
